@@ -214,7 +214,7 @@ def run(ctx):
     import jax.numpy as jnp
 
     n_cases = ctx.pick(16 * 14, 16 * 160)
-    budget = ctx.pick(70.0, 700.0)
+    budget = ctx.pick(62.0, 420.0)
     for ci in ctx.my_share(n_cases):
         if ctx.elapsed() > budget:
             ctx.count("cases_dropped_by_time_budget")
